@@ -117,6 +117,7 @@ class Collector:
         self.exhaustive = None
         self.notes = []
         self.config = None
+        self.enumerating = False
         self._sample_tick = 0
 
     # counting -------------------------------------------------------------------------------------------
@@ -163,6 +164,12 @@ class Collector:
             return
         if sig in self.muted:
             return
+        if self.enumerating:
+            # plain enumeration (no Hypothesis): keep the first (smallest-index) witness per signature, go on
+            self.violations.append({'sig': sig, 'detail': jsonable(detail),
+                                    'case': jsonable(case() if callable(case) else case)})
+            self.muted.add(sig)
+            return
         if self.target_sig is None:
             self.target_sig = sig
         if sig != self.target_sig:
@@ -171,6 +178,18 @@ class Collector:
         self.last_failure = {'sig': sig, 'detail': jsonable(detail),
                              'case': jsonable(case() if callable(case) else case)}
         raise Violation(self.prop, sig, detail)
+
+    def enumeration(self):
+        col = self
+
+        class _Ctx:
+            def __enter__(self_):
+                col.enumerating = True
+
+            def __exit__(self_, *a):
+                col.enumerating = False
+                return False
+        return _Ctx()
 
     def dump(self):
         return {'evaluations': self.evaluations, 'nontrivial': sorted(self.nontrivial),
